@@ -121,6 +121,14 @@ CLAIMS = {
          "valid encodings, an independent non-canonical encoder, mutations and random strings is re-encoded by the real code and "
          "decoded again, and TLC compares with the TLA+ decoder's value of the input (kept information: unknown option types, "
          "flag bits, protocol numbers, unreferenced options, raw indexes and counts)", "DESIGN.md §7 C20", FT, FN),
+ "C04": ("fault_enumeration",
+         "two real stacks (offerer with one instance / eventgroup, watcher with find_subscribe_eventgroup) run on virtual loops "
+         "with a shared clock and a harness network; fault schedules -- every tick x every gap for crash+restart / stop+start of "
+         "either peer and loss windows, plus seeded multi-fault schedules with drop / duplication / delay, finite TTL with "
+         "refresh and infinite TTL without -- are judged at every idle instant by the TLA+ monitor Mon_C04 evaluated by TLC "
+         "(convergence within TTL + cyclic period after the last disturbance)", "DESIGN.md §7 C04",
+         "fault-schedule enumeration on the real two-stack set-up; verdict by the TLA+ monitor Mon_C04 evaluated in TLC",
+         "no exhaustive TLC model of the two-node composition yet (single-node SD.tla only); bounded fault positions; one known finding (F1) listed in KNOWN_FINDINGS.jsonl"),
 }
 claimed = sorted(CLAIMS)
 m = {"version": 1, "setup_cmd": "./setup.sh",
